@@ -741,7 +741,10 @@ where
                 } else {
                     let mut shared = self.state.lock();
                     shared.next_free.push(state.next_free.replace(0));
-                    shared.node_count += state.node_count_delta.replace(0) as i64;
+                    // `delta` includes the node we just removed, while
+                    // `state.node_count_delta` has not been updated yet.
+                    state.node_count_delta.set(0);
+                    shared.node_count += delta as i64;
                 }
             } else {
                 #[cold]
